@@ -308,8 +308,11 @@ static void t_clipperD_open(Rng& g, const Ctx& c, const PathsD& subj, const Path
   ClipperD cd(c.prec); Clipper64 c64;
   cd.ReverseSolution(rev); c64.ReverseSolution(rev);
   cd.PreserveCollinear(pres); c64.PreserveCollinear(pres);
-  cd.AddSubject(subj); cd.AddOpenSubject(open); cd.AddClip(clip);
-  c64.AddSubject(scale_paths(subj, c.sD)); c64.AddOpenSubject(scale_paths(open, c.sD)); c64.AddClip(scale_paths(clip, c.sD));
+  // (now and then no open subject is handed over at all - not even an empty list -: the open solution must still come back empty)
+  bool with_open = !g.chance(25);
+  if (!with_open) stat("clipperD.no_open_subjects_added");
+  cd.AddSubject(subj); if (with_open) cd.AddOpenSubject(open); cd.AddClip(clip);
+  c64.AddSubject(scale_paths(subj, c.sD)); if (with_open) c64.AddOpenSubject(scale_paths(open, c.sD)); c64.AddClip(scale_paths(clip, c.sD));
   bool tree = g.chance(35);
   PathsD closedD, openD; Paths64 closed64, open64;
   if (g.chance(40)) {   // containers that still hold paths from an earlier use: every Execute overload must overwrite them
